@@ -349,7 +349,8 @@ def probe_cfg():
     def bit(kind, op, script, bad):
         return "0" if execute(kind, op, script)["out"] == "exc " + bad else "1"
     return (bit("t3", "write", "ttt", "TypeError") + bit("t3", "present", "ooo", "UnboundLocalError")
-            + bit("t3", "present", "0", "IndexError") + bit("t2big", "write", "ax", "AssertionError"))
+            + bit("t3", "present", "0", "IndexError") + bit("t2big", "write", "ax", "AssertionError")
+            + bit("t4", "ndef", "o", "BrokenLinkError"))
 
 
 NOSTATUS = {"rr", "sc", "ss0", "ss1", "ss2", "ss3"}
@@ -429,8 +430,8 @@ def oracle(ck, plan, script, r):
             last = [e for inv in r["invs"] for e in inv if e[0] != "!"]
             if errno <= 0 and last:
                 want = CLASS_ERRNO.get(last[-1][1])
-                if want is None and fam == "t3" and last[-1][1] in "ocOC":
-                    want = -1          # repaired tt3: unknown class reported as RECEIVE_ERROR
+                if want is None and fam in ("t3", "t4") and last[-1][1] in "ocOC":
+                    want = -1          # repaired tt3/tt4: unknown class reported as RECEIVE_ERROR
                 if want != errno:
                     ck.fail("reason-code-mismatch", what + "TagCommandError(%d) after last attempt '%s'" % (errno, last[-1][1]), replay)
     else:
@@ -488,7 +489,7 @@ def run(ck):
     from sims import retry_sims as rs
     rng = ck.rng
     cfg = probe_cfg()
-    ck.notes.append("tree under test: F17 %s, F31(Type 3) %s, F32 %s, sector-select assert %s"
+    ck.notes.append("tree under test: F17 %s, F31(Type 3) %s, F32 %s, sector-select assert %s, ISO-DEP unknown CommunicationError %s"
                     % tuple("repaired" if b == "1" else "as found" for b in cfg))
     reqs, reals, meta = [], [], []
     for kind in rs.KINDS:
